@@ -38,11 +38,17 @@ def engine_closed_stops(inv):
     out = []
     evs = inv.events
     last_msg = None
+    finished = set()  # mids of the commands that have ended
     for e in evs:
         if e.kind == "msg":
             last_msg = e
+            finished.discard(e.d["mid"])
+        elif e.kind == "cmd":
+            finished.add(e.d["mid"])
         elif e.kind == "doc" and e.d["name"] == "stop":
-            by_plan = last_msg is not None and last_msg.d["cmd"] == "close_run" and last_msg.step == e.step
+            # by the plan: emitted while the plan's own 'close_run' message is being executed (that can take several
+            # loop steps: the engine first collects a flyer the plan left uncollected)
+            by_plan = last_msg is not None and last_msg.d["cmd"] == "close_run" and (last_msg.step == e.step or last_msg.d["mid"] not in finished)
             out.append((e, not by_plan))
     return out
 
